@@ -313,8 +313,11 @@ def r6(run, db):
         n = 0
         for site, s in f.aggregates(adt="MessagingErr", variant="SendErr"):
             n += 1
-            roots = f.origins(s["rv"]["ops"][0])
-            run.check(all(r["k"] == "arg" and r["local"] == 2 for r in roots) and roots, key + "|handback", "SendErr carries the original message parameter", "SendErr carries something other than the message parameter", f.where(s.get("l")))
+            thr_ = lambda cc: 0 if cc.matches(r"Message::from_boxed$|Result::<T, E>::unwrap$|Option::<T>::unwrap$|Result::<T, E>::expect$") else None
+            roots = f.origins(s["rv"]["ops"][0], through=thr_)
+            # (the channel's own refusal, written out in the body, hands back what its send() returned in Err: see C02.R2)
+            from_chan = lambda r: r["k"] == "call" and r["call"].matches(r"UnboundedSender::<T>::send$") and any(e.startswith("d:1") for e in r.get("proj", []))
+            run.check(all((r["k"] == "arg" and r["local"] == 2) or from_chan(r) for r in roots) and roots, key + "|handback", "SendErr carries the original message parameter", "SendErr carries something other than the message parameter", f.where(s.get("l")))
         run.anchor(key + " SendErr constructions", n, 2, f.where())
         adms = f.calls_to(adm.admit[0].id)
         if adms:
